@@ -182,6 +182,8 @@ type Conn struct {
 	done chan struct{}
 
 	closed uint64
+
+	vh verifCliHook
 }
 
 // setLastErr records the error that ended the connection, keeping the first one
@@ -243,6 +245,10 @@ func NewConn(c net.Conn, opts ConnOpts) *Conn {
 
 	nc.current.SetMaxWindowSize(1 << 20)
 	nc.current.SetPush(false)
+
+	if verifOn {
+		vCliInit(nc)
+	}
 
 	return nc
 }
@@ -507,6 +513,10 @@ func (c *Conn) Close() error {
 	// a send on a closed channel panics. Closing done tells it to stop instead.
 	close(c.done)
 
+	if verifOn {
+		vCliEv(c, "close", 0, 0)
+	}
+
 	fr := AcquireFrameHeader()
 	defer ReleaseFrameHeader(fr)
 
@@ -645,6 +655,10 @@ func (we WriteError) As(target interface{}) bool {
 }
 
 func (c *Conn) writeLoop() {
+	if verifOn {
+		defer vCliEv(c, "wl.exit", 0, 0)
+	}
+
 	lastErr := c.runWriteLoop()
 	if lastErr == nil {
 		lastErr = io.ErrUnexpectedEOF
@@ -697,10 +711,18 @@ func (c *Conn) runWriteLoop() (lastErr error) {
 	defer ticker.Stop()
 
 	for {
+		if verifOn {
+			vCliEv(c, "wl.idle", 0, 0)
+			vCliGate(c, "wl.idle", 0)
+		}
+
 		select {
 		case <-c.done:
 			return lastErr
 		case ctx := <-c.in: // sending requests
+			if verifOn {
+				vCliEv(c, "wl.req", 0, 0)
+			}
 			err := c.writeRequest(ctx)
 			if err != nil {
 				ctx.resolve(err)
@@ -712,6 +734,9 @@ func (c *Conn) runWriteLoop() (lastErr error) {
 				return WriteError{err}
 			}
 		case fr := <-c.out: // generic output
+			if verifOn {
+				vCliEv(c, "wl.out", fr.Stream(), int64(fr.Type()))
+			}
 			err := c.writeFrame(fr)
 
 			ReleaseFrameHeader(fr)
@@ -720,10 +745,16 @@ func (c *Conn) runWriteLoop() (lastErr error) {
 				return WriteError{err}
 			}
 		case <-c.winCh: // a send window opened
+			if verifOn {
+				vCliEv(c, "wl.win", 0, 0)
+			}
 			if err := c.flushPending(); err != nil {
 				return WriteError{err}
 			}
 		case <-ticker.C: // ping
+			if verifOn {
+				vCliEv(c, "wl.ping", 0, 0)
+			}
 			if err := c.writePing(); err != nil {
 				return WriteError{err}
 			}
@@ -760,10 +791,19 @@ func (c *Conn) finish(r *Ctx, stream uint32, err error) {
 	c.deletePending(stream)
 
 	r.markFinished()
+
+	if verifOn {
+		vCliEv(c, "finish", stream, 0)
+	}
+
 	r.resolve(err)
 }
 
 func (c *Conn) readLoop() {
+	if verifOn {
+		defer vCliEv(c, "rl.exit", 0, 0)
+	}
+
 	defer func() { _ = c.Close() }()
 
 	// A panic here would otherwise take the whole process down: this goroutine
@@ -794,6 +834,10 @@ func (c *Conn) readLoop() {
 			break
 		}
 
+		if verifOn {
+			vCliEv(c, "rl.frame", fr.Stream(), int64(fr.Type()))
+		}
+
 		// We advertise SETTINGS_ENABLE_PUSH of 0, so the server has no business
 		// promising anything. Ignoring the frame would leave it holding a
 		// stream we are never going to read.
@@ -815,6 +859,10 @@ func (c *Conn) readLoop() {
 		stop := c.dispatch(fr)
 
 		ReleaseFrameHeader(fr)
+
+		if verifOn {
+			vCliEv(c, "rl.done", 0, 0)
+		}
 
 		if stop {
 			break
@@ -908,6 +956,11 @@ func (c *Conn) writeRequest(ctx *Ctx) error {
 
 	atomic.StoreUint32(&c.nextID, id+2)
 
+	if verifOn {
+		vCliEv(c, "wr.id", id, 0)
+		vCliGate(c, "wr.afterid", id)
+	}
+
 	fr := AcquireFrameHeader()
 	defer ReleaseFrameHeader(fr)
 
@@ -981,6 +1034,10 @@ func (c *Conn) writeRequest(ctx *Ctx) error {
 			pb.body = req.Body()
 		}
 
+		if verifOn {
+			vCliGate(c, "wr.beforepending", id)
+		}
+
 		c.sendLck.Lock()
 		c.pending[id] = pb
 		c.sendLck.Unlock()
@@ -1007,6 +1064,11 @@ func (c *Conn) writeRequest(ctx *Ctx) error {
 	}
 
 	atomic.AddInt32(&c.openStreams, 1)
+
+	if verifOn {
+		vCliEv(c, "wr.headers", id, 0)
+		vCliGate(c, "wr.afterheaders", id)
+	}
 
 	if hasBody {
 		release()
